@@ -99,6 +99,9 @@ func newWorld(x *vsched.Exec, full bool, maxRetrans uint8) *world {
 // cleanup runs outside the scheduler, after the execution has ended: only OS resources are released.
 func (w *world) cleanup() {
 	vsched.ExtProbe = nil
+	if w.k != nil {
+		w.k.OnRequest = nil
+	}
 	w.v.CloseConn()
 	if w.g != nil {
 		w.g.VCloseRaw()
